@@ -82,6 +82,28 @@ def _c19_float_floor(case, v):
     return abs(f - w) > F(1, 10 ** 9) * max(1, abs(w))
 
 
+@family('css_brace_in_parens')
+def _css_brace_in_parens(case, v):
+    """the stylesheet has a `{` or `}` between parentheses, outside strings and comments"""
+    s = case.get('s') or case.get('source') or ''
+    if not isinstance(s, str): return False
+    i = 0; depth = 0; n = len(s)
+    while i < n:
+        ch = s[i]
+        if s.startswith('/*', i):
+            j = s.find('*/', i + 2); i = n if j < 0 else j + 2; continue
+        if ch in '"\'':
+            j = i + 1
+            while j < n and s[j] != ch:
+                j += 2 if s[j] == '\\' else 1
+            i = j + 1; continue
+        if ch == '(': depth += 1
+        elif ch == ')': depth = max(0, depth - 1)
+        elif ch in '{}' and depth > 0: return True
+        i += 1
+    return False
+
+
 def attribute(known, prop, domname, dom, case, v):
     for f in known:
         if f.get('domain') and f['domain'] != domname: continue
